@@ -3005,7 +3005,6 @@ private:
         }
 
         ps.current_term_idx = res.term_idx;
-        ps.current_end_it = ps.current_it + res.len;
 
         if (ps.current_term_idx == uninitialized16)
         {
@@ -3014,6 +3013,7 @@ private:
         }
         else
         {
+            ps.current_end_it = ps.current_it + res.len;
             trace_recognized_term(ps);
         }
 
